@@ -23,6 +23,14 @@ CHECKS = {
 }
 
 PENDING = {}
+CHECKS["C18"] = ("lifecycle", "exploration",
+   "Discrete-event simulation whose clock is the block height: a committed migration (assembled from the real scheduling functions over a generated dependency graph, or an arbitrary representable state from the crate's own generator) is driven by the documented consumer loop (advance_migration -> perform the step -> record -> persist) against a simulated chain, miner, node and wallet scan, with broadcast rejection, lost broadcast records (crash between submitting and recording), never-mined transactions, reorgs with re-mining, foreign spends, scan lag, estimate skew and jumps, long sleeps, store errors on any write and consumer restarts from the store. Checked on every step: a Broadcast step names a Proved transaction whose dependencies are mined, that is due at the effective target, unexpired at the scanned target, not withheld, without an open failure report and not dead; prove batches name distinct live ids; lifecycle states only move forward except that truncate_to_height demotes exactly the rows mined above the height and clears exactly the marks / reports stamped above it; terminal statuses are absorbing (Complete only through a rollback that un-mines); no silent stranding; every persisted state is also written to and read back from the real SQLite store and must be equal, with at most one non-terminal migration per account; after the last fault the migration completes or surfaces Replan / Rebuild, Waiting being accepted only while something can still change.",
+   "4.10", "The satisfiability oracle and mined_height answer from the simulated chain (composed through classify_input_observations); PCZT contents are opaque bytes; Rebuild is answered by superseding; the SQLite store's own oracle queries are not exercised here (they belong to C02).",
+   "deterministic simulation: discrete-event consumer/miner/reorg/crash histories vs. step and lifecycle invariants + SQLite round trip")
+CHECKS["C17"] = ("clock", "exploration",
+   "Partial. While the discrete-event clock of the migration simulation runs (heights up to u32::MAX, drawn grids, activation and commit heights) every scheduling artefact the engine emits under simulator-chosen RNG stream kinds (uniform, zeros-heavy, ones-heavy, low-entropy, counter; a draw budget turns a non-terminating rejection loop into a reported failure) is checked: broadcast heights never decrease from the start and gaps stay within the delay cap, every expiry equals an independently computed canonical rolling expiry (saturating), drawn and re-drawn anchors are grid boundaries strictly above activation, not before the funding note, strictly below the most recent boundary and within the age cap, absent exactly when a brute-force scan finds none; wake-up schedules are strictly increasing, never in the past, cover every live transfer exactly once inside its proving window. Auxiliary only: wake-up minimality against a brute-force piercing set on <=10 windows and classification monotonicity along seeded evidence-reveal orders.",
+   "4.9", "Minimality and evidence-monotonicity are input-space clauses carried as cheap auxiliary oracles; confirmatory evidence clauses are held fixed per source as the type documents.",
+   "deterministic simulation: engine artefacts checked under a simulated clock and adversarial RNG streams")
 CHECKS["C02"] = ("atomic", "fault_enumeration",
    "For wallet states reached by fault-free histories on a real SQLite wallet (both journal modes) and for each of twelve write operations (scan_cached_blocks/put_blocks, truncate_to_height, truncate_to_chain_state, update_chain_tip, create_account, import_account_ufvk, delete_account, put_*_subtree_roots, get_next_available_address, put_received_transparent_utxo, set_transaction_status, queue_rescans; legal and illegal arguments): a reference run on a copy gives the post-state, VM-step, commit and row-write counts; the operation is then repeated on the original with SQLITE_INTERRUPT at stratified + sampled VM steps, a statement-level ABORT at sampled row writes that leaves the transaction open (TEMP triggers), each commit refused, database+journal/WAL images copied mid-operation and recovered by a fresh connection, a second connection dumping the database inside one read transaction (and get_wallet_summary) from inside the writer's progress handler and right after every commit, the writer run from inside a reader's progress handler, and an un-faulted retry. Every outcome must be (Err and pre-state) or (Ok and reference post-state), through both connections; every snapshot and recovered image must be pre or post; no transaction may be left open; the retry must reproduce the reference post-state. Fault positions are sampled inside each operation, not enumerated exhaustively.",
    "4.2", "Interrupts are not delivered to BEGIN/ROLLBACK/SAVEPOINT/RELEASE statements (an interrupted transaction-control statement is an artefact of sqlite3_interrupt, not of I/O failure); an error after the operation's final commit with the complete post-state is accepted (the retry is idempotent); store_decrypted_tx, store_transactions_to_be_sent, lock_outputs and the migration store are not yet swept; the disk below SQLite is real tmpfs.",
@@ -89,7 +97,5 @@ HOOK_COMMITS = ["abbf854"]
 PENDING.update({
  "C08": "check not built yet at this commit (planned: wallet-sim spend, DESIGN.md section 4.6)",
  "C13": "check not built yet at this commit (planned: pczt-sim parties, DESIGN.md section 4.7)",
- "C17": "check not built yet at this commit (planned: migration-sim clock, DESIGN.md section 4.9)",
- "C18": "check not built yet at this commit (planned: migration-sim lifecycle, DESIGN.md section 4.10)",
 })
 main()
